@@ -289,3 +289,39 @@ mod tests {
         assert_eq!(rx.try_recv(), None);
     }
 }
+
+/// Verification hook H7 (guarded by `--cfg scylla_verif`, add-only): public pass-through
+/// wrappers around the crate-private channel, so that an external harness can drive the real
+/// endpoints. No behaviour of its own.
+#[cfg(scylla_verif)]
+#[allow(missing_docs)]
+pub mod verif_hooks {
+    use super::{Receiver, Sender, merge_channel};
+
+    pub struct VerifSender<T>(Sender<T>);
+    pub struct VerifReceiver<T>(Receiver<T>);
+
+    /// [`merge_channel`](super::merge_channel).
+    pub fn verif_merge_channel<T>() -> (VerifSender<T>, VerifReceiver<T>) {
+        let (tx, rx) = merge_channel();
+        (VerifSender(tx), VerifReceiver(rx))
+    }
+
+    impl<T> VerifSender<T> {
+        /// [`Sender::modify`]; `Err(())` stands for `SendError`.
+        #[allow(clippy::result_unit_err)]
+        pub fn modify<F>(&mut self, f: F) -> Result<(), ()>
+        where
+            F: FnOnce(&mut Option<T>),
+        {
+            self.0.modify(f).map_err(|_| ())
+        }
+    }
+
+    impl<T> VerifReceiver<T> {
+        /// [`Receiver::recv`]: the very future returned by the real method.
+        pub fn recv(&mut self) -> impl std::future::Future<Output = Option<T>> + '_ {
+            self.0.recv()
+        }
+    }
+}
